@@ -24,8 +24,8 @@ def to_tree(test, classify=None, norm_fn=None):
     if isinstance(test, ast.IfExp):
         c = to_tree(test.test, classify, nf)
         return ("or", [("and", [c, to_tree(test.body, classify, nf)]), ("and", [("not", c), to_tree(test.orelse, classify, nf)])])
-    if isinstance(test, ast.Constant) and isinstance(test.value, bool):
-        return ("const", test.value)
+    if isinstance(test, ast.Constant):
+        return ("const", bool(test.value))
     neg = False
     leaf = test
     if isinstance(test, ast.Compare) and len(test.ops) == 1 and type(test.ops[0]) in _FLIP:
@@ -107,17 +107,19 @@ def must_cross(g, target, edge_ok, start=None):
     return not reach_avoiding(g, start or g.entry, target, edge_ok)
 
 
-def branch_edge_entails(classify, goal, goal_vars=(), norm_fn=None, with_node=False):
+def branch_edge_entails(classify, goal, goal_vars=(), norm_fn=None, with_node=False, expand_test=None):
     """edge predicate for must_cross: the edge is the true/false edge of a branch whose outcome forces `goal`.
     with_node: classify is called as classify(leaf, branch_node) (for classifiers that expand the leaf in its context)."""
     def ok(src, kind, dst):
         if src.kind != "branch" or kind not in ("true", "false"):
             return False
         cl = (lambda lf, src=src: classify(lf, src)) if with_node else classify
-        return entails(src.ast.test, kind == "true", cl, goal, goal_vars, norm_fn)
+        test = expand_test(src.ast.test, src) if expand_test is not None else src.ast.test
+        return entails(test, kind == "true", cl, goal, goal_vars, norm_fn)
     return ok
 
 
-def known(g, node, classify, goal, goal_vars=(), norm_fn=None, with_node=False, start=None):
-    """path form of `goal is known at node`: every entry->node path crosses a branch edge that forces goal."""
-    return must_cross(g, node, branch_edge_entails(classify, goal, goal_vars, norm_fn, with_node), start)
+def known(g, node, classify, goal, goal_vars=(), norm_fn=None, with_node=False, start=None, expand_test=None):
+    """path form of `goal is known at node`: every entry->node path crosses a branch edge that forces goal.
+    expand_test(test_ast, branch_node) may rewrite the test first (locals expanded, helpers inlined)."""
+    return must_cross(g, node, branch_edge_entails(classify, goal, goal_vars, norm_fn, with_node, expand_test), start)
